@@ -1,19 +1,85 @@
 /-
-  The temporary name under which `copy_file` (file/src/common/mod.rs) writes a workspace copy before renaming it to
-  the path (repair F21): `path.with_file_name(format!(".{}.xvc-tmp", file_name))`.
+  The temporary entry through which `copy_to_workspace` (file/src/common/mod.rs; repairs F21 and F29) writes a
+  workspace copy: `.xvc/tmp/<pid>-<counter>`, created exclusively (`create_new`), filled from the object, renamed to
+  the path.  The counter is a process-wide `AtomicUsize` (`fetch_add`), so every copy of one command gets its own
+  temporary entry, and the entry lives in xvc's own directory: no file name of the workspace is reserved.
 
   `track`, `carry-in` and `recheck --no-parallel` run the per-file procedure of several targets on rayon threads at the
   same time.  The repository model runs the targets one after the other (`forEach`); that is only faithful when the
-  per-file procedures of two different targets touch different directory entries.  The entries `copy_file` touches for a
-  path `(dir, name)` are `(dir, name)` itself and `(dir, tmpName name)`.  This file states that footprint and proves that
-  the footprints of two different paths are disjoint (Props/C17Tmp.lean), under the one reservation the scheme makes:
-  no target's own name has the shape of a temporary name.
+  per-file procedures of two different targets touch different directory entries.  This file states the footprint of
+  the copy step and Props/C17Tmp.lean proves that the footprints of different targets are disjoint and that therefore
+  every schedule ends in the state of the sequential run.
 
-  Names are byte strings (`List Nat`, one element per byte), the same representation the driver reads in hex.
+  File contents and workspace file names are byte strings (`List Nat`, one element per byte).
 -/
 namespace XvcRepo.Tmp
 
 abbrev Name := List Nat
+
+/-- A directory entry: a workspace path (directory in any representation, file name), or a temporary entry of xvc's
+    own directory `.xvc/tmp`, named by process id and counter value. -/
+inductive Entry (δ : Type) where
+  | ws  (dir : δ) (name : Name)
+  | tmp (pid k : Nat)
+  deriving DecidableEq, Repr
+
+def Entry.isWs {δ : Type} : Entry δ → Bool
+  | .ws _ _ => true
+  | .tmp _ _ => false
+
+/-- how the code spells the temporary entry (`format!("{}-{}", pid, counter)`); used by the driver only -/
+def render (pid k : Nat) : String := s!"{pid}-{k}"
+
+/-- The directory entries the copy step creates, replaces or removes for a path. -/
+def footprint {δ : Type} (pid k : Nat) (p : Entry δ) : List (Entry δ) := [p, .tmp pid k]
+
+/-! ### The copy step as directory operations, and schedules of several copies -/
+
+inductive FsOp (δ : Type) where
+  | createNew (e : Entry δ)            -- `OpenOptions::create_new`: an empty file, only if no entry is there
+  | unlink (e : Entry δ)               -- `remove_file` if the entry exists
+  | write  (e : Entry δ) (b : Name)    -- `fs::copy(object, e)`: creates or truncates `e`
+  | rename (a b : Entry δ)             -- `fs::rename(a, b)`; fails (no effect) when `a` does not exist
+
+/-- A directory tree as far as this model needs it: entry ↦ bytes. -/
+abbrev Tree (δ : Type) := Entry δ → Option Name
+
+def FsOp.touches {δ : Type} : FsOp δ → List (Entry δ)
+  | .createNew e => [e]
+  | .unlink e => [e]
+  | .write e _ => [e]
+  | .rename a b => [a, b]
+
+def FsOp.apply {δ : Type} [DecidableEq δ] (o : FsOp δ) (s : Tree δ) : Tree δ :=
+  match o with
+  | .createNew e => fun x => if x = e then (match s e with | none => some [] | some v => some v) else s x
+  | .unlink e => fun x => if x = e then none else s x
+  | .write e b => fun x => if x = e then some b else s x
+  | .rename a b =>
+    match s a with
+    | none => s
+    | some v => fun x => if x = b then some v else if x = a then none else s x
+
+def run {δ : Type} [DecidableEq δ] (ops : List (FsOp δ)) (s : Tree δ) : Tree δ :=
+  ops.foldl (fun s o => o.apply s) s
+
+/-- What `copy_to_workspace` does for the path `p` with the object bytes `b`, as the `k`-th copy of process `pid`.
+    (`set_writable` changes the mode of the temporary entry; modes are not part of this small model.  When
+    `create_new` fails the real procedure stops with an error, see `copyGuarded`; in the schedules below the
+    temporary entries are fresh.) -/
+def copyProc {δ : Type} (pid k : Nat) (p : Entry δ) (b : Name) : List (FsOp δ) :=
+  [.createNew (.tmp pid k), .write (.tmp pid k) b, .rename (.tmp pid k) p]
+
+/-- The whole procedure with its guard: when the temporary entry exists already, nothing is touched and the copy
+    fails; otherwise the three operations run. -/
+def copyGuarded {δ : Type} [DecidableEq δ] (pid k : Nat) (p : Entry δ) (b : Name) (s : Tree δ) : Option (Tree δ) :=
+  match s (.tmp pid k) with
+  | some _ => none
+  | none => some (run (copyProc pid k p b) s)
+
+/-! Two schemes that are NOT the code, kept for the negative witnesses: the temporary entry next to the path, removed
+    first when it exists (the code before repair F29), with the name `.<name>.xvc-tmp` or — seeded change C17-3 —
+    `path.with_extension("xvc-tmp")`. -/
 
 /-- `.` -/
 def dot : Nat := 46
@@ -22,31 +88,7 @@ def dot : Nat := 46
 def suffix : Name := [46, 120, 118, 99, 45, 116, 109, 112]
 
 /-- `format!(".{}.xvc-tmp", name)` -/
-def tmpName (n : Name) : Name := dot :: (n ++ suffix)
-
-/-- A workspace path: directory (any representation) and file name. -/
-structure WPath (δ : Type) where
-  dir  : δ
-  name : Name
-  deriving DecidableEq, Repr
-
-/-- `path.with_file_name(tmpName name)` -/
-def tmpPath {δ : Type} (p : WPath δ) : WPath δ := { dir := p.dir, name := tmpName p.name }
-
-/-- The name has the shape of a temporary name (the reserved shape). -/
-def IsTmp (n : Name) : Prop := ∃ m, n = tmpName m
-
-/-- decidable version of `IsTmp`, used by the driver and the examples -/
-def isTmpB (n : Name) : Bool :=
-  match n with
-  | [] => false
-  | c :: r => c == dot && suffix.length ≤ r.length && r.drop (r.length - suffix.length) == suffix
-
-/-- The directory entries `copy_file` creates, replaces or removes for a path. -/
-def footprint {δ : Type} (p : WPath δ) : List (WPath δ) := [p, tmpPath p]
-
-/-! A variant that is NOT the code: `path.with_extension("xvc-tmp")` (the last extension is replaced).  It is here for
-    the negative witness only (seeded change C17-3). -/
+def siblingTmpName (n : Name) : Name := dot :: (n ++ suffix)
 
 /-- index-free `file_stem`: the bytes before the last dot; a name without a dot, or whose only dot is the first byte,
     is its own stem (Rust `Path::file_stem`). -/
@@ -61,48 +103,9 @@ def stem (n : Name) : Name :=
 
 def tmpNameWithExtension (n : Name) : Name := stem n ++ suffix
 
-end XvcRepo.Tmp
-
-/-! ### The copy step as directory operations, and schedules of two copies
-
-    `copy_file` for a path `p` with object bytes `b`: remove a stale temporary entry, copy the object to the temporary
-    entry, rename it to the path.  (`set_writable` changes the mode of the temporary entry; modes are not part of this
-    small model.) -/
-namespace XvcRepo.Tmp
-
-inductive FsOp (δ : Type) where
-  | unlink (e : WPath δ)                 -- `remove_file` if the entry exists
-  | write  (e : WPath δ) (b : Name)      -- `fs::copy(cache_path, e)`: creates or truncates `e`
-  | rename (a b : WPath δ)               -- `fs::rename(a, b)`; fails (no effect) when `a` does not exist
-
-/-- A directory tree as far as this model needs it: entry ↦ bytes. -/
-abbrev Tree (δ : Type) := WPath δ → Option Name
-
-def FsOp.touches {δ : Type} : FsOp δ → List (WPath δ)
-  | .unlink e => [e]
-  | .write e _ => [e]
-  | .rename a b => [a, b]
-
-def FsOp.apply {δ : Type} [DecidableEq δ] (o : FsOp δ) (s : Tree δ) : Tree δ :=
-  match o with
-  | .unlink e => fun x => if x = e then none else s x
-  | .write e b => fun x => if x = e then some b else s x
-  | .rename a b =>
-    match s a with
-    | none => s
-    | some v => fun x => if x = b then some v else if x = a then none else s x
-
-def run {δ : Type} [DecidableEq δ] (ops : List (FsOp δ)) (s : Tree δ) : Tree δ :=
-  ops.foldl (fun s o => o.apply s) s
-
-/-- what `copy_file` does -/
-def copyProc {δ : Type} (p : WPath δ) (b : Name) : List (FsOp δ) :=
-  [.unlink (tmpPath p), .write (tmpPath p) b, .rename (tmpPath p) p]
-
-/-- the same with the `with_extension` temporary name (not the code) -/
-def copyProcWithExtension {δ : Type} (p : WPath δ) (b : Name) : List (FsOp δ) :=
-  let t : WPath δ := { dir := p.dir, name := tmpNameWithExtension p.name }
-  [.unlink t, .write t b, .rename t p]
+/-- the copy step before F29 with a given naming of the sibling temporary entry -/
+def copyProcSibling {δ : Type} (naming : Name → Name) (dir : δ) (name : Name) (b : Name) : List (FsOp δ) :=
+  [.unlink (.ws dir (naming name)), .write (.ws dir (naming name)) b, .rename (.ws dir (naming name)) (.ws dir name)]
 
 /-- `zs` is a schedule of the two threads `xs` and `ys`: each thread's operations in its own order. -/
 inductive Interleave {α : Type} : List α → List α → List α → Prop
